@@ -22,6 +22,19 @@ pub struct Ctl {
     init: u8,
     k: usize,
     shared: Rc<RefCell<Shared>>,
+    /// fail at the n-th handle_token call (1-based; 0 = never)
+    fail_at: usize,
+    tokens_seen: usize,
+}
+
+/// extra configuration of the fault lane
+#[derive(Clone, Copy, Default)]
+pub struct Fault {
+    pub fail_at: usize,
+    pub bail_mem: bool,
+    pub bail_handler: bool,
+    pub max_mem: usize, // 0 = unlimited
+    pub prealloc: usize,
 }
 
 fn enc(s: &str) -> Vec<u8> {
@@ -187,8 +200,15 @@ impl TransformController for Ctl {
         flags(it.0)
     }
     fn handle_token(&mut self, token: &mut Token<'_>) -> Result<(), RewritingError> {
+        self.tokens_seen += 1;
+        if self.fail_at != 0 && self.tokens_seen == self.fail_at {
+            return Err(RewritingError::ContentHandlerError("injected".into()));
+        }
         token_str(token, &mut self.shared.borrow_mut());
         Ok(())
+    }
+    fn handle_bail_out(&mut self, _e: &RewritingError, b: &mut lol_html::html_content::BailOut<'_>) {
+        b.append("!", lol_html::html_content::ContentType::Html);
     }
     fn handle_end(&mut self, _: &mut DocumentEnd<'_>) -> Result<(), RewritingError> {
         Ok(())
@@ -232,20 +252,24 @@ pub struct RunRes {
 /// Run the real TransformStream under the scripted controller. `do_end = false` stops after the
 /// last write (used by the latency oracle).
 pub fn run_cfg(input: &[u8], cuts: &[usize], strict: bool, init: u8, script: &[(u8, bool)], do_end: bool) -> RunRes {
+    run_cfg_fault(input, cuts, strict, init, script, do_end, Fault::default())
+}
+
+pub fn run_cfg_fault(input: &[u8], cuts: &[usize], strict: bool, init: u8, script: &[(u8, bool)], do_end: bool, fault: Fault) -> RunRes {
     let shared = Rc::new(RefCell::new(Shared::default()));
     let out = Rc::new(RefCell::new(Vec::<u8>::new()));
     let out2 = out.clone();
-    let ctl = Ctl { script: script.to_vec(), init, k: 0, shared: shared.clone() };
+    let ctl = Ctl { script: script.to_vec(), init, k: 0, shared: shared.clone(), fail_at: fault.fail_at, tokens_seen: 0 };
     let mut ts = TransformStream::new(TransformStreamSettings {
         transform_controller: ctl,
         output_sink: move |c: &[u8]| out2.borrow_mut().extend_from_slice(c),
-        preallocated_parsing_buffer_size: 0,
-        memory_limiter: SharedMemoryLimiter::new(1_000_000_000),
+        preallocated_parsing_buffer_size: fault.prealloc,
+        memory_limiter: SharedMemoryLimiter::new(if fault.max_mem == 0 { 1_000_000_000 } else { fault.max_mem }),
         encoding: lol_html::AsciiCompatibleEncoding::new(WINDOWS_1252).unwrap(),
         next_encoding: Default::default(),
         strict,
-        graceful_bail_out_on_memory_limit_exceeded: false,
-        graceful_bail_out_on_content_handler_error: false,
+        graceful_bail_out_on_memory_limit_exceeded: fault.bail_mem,
+        graceful_bail_out_on_content_handler_error: fault.bail_handler,
     });
     let mut results = vec![];
     let mut outs = vec![];
@@ -497,4 +521,25 @@ pub fn run(line: &str) -> String {
         }
     }
     format!("{obs}{oracle}")
+}
+
+
+/// Lane `fault`: the lex lane with a failure injected at the n-th token, graceful flags, a memory limit
+/// and a preallocation size.  case: <lex case> <failAt> <graceful bits mem=2,handler=1> <maxmem 0=unlimited> <prealloc>
+pub fn run_fault(line: &str) -> String {
+    let f: Vec<&str> = line.split(' ').collect();
+    if f.len() != 9 {
+        return "bad-case".into();
+    }
+    let (Some(input), Some(cuts), Ok(init), Some(script), Ok(fail_at), Ok(g), Ok(max_mem), Ok(prealloc)) = (
+        of_hex(f[0]), nat_list(f[1]), f[3].parse::<u8>(), parse_script(f[4]),
+        f[5].parse::<usize>(), f[6].parse::<u8>(), f[7].parse::<usize>(), f[8].parse::<usize>(),
+    ) else {
+        return "bad-case".into();
+    };
+    let fault = Fault { fail_at, bail_mem: g & 2 != 0, bail_handler: g & 1 != 0, max_mem, prealloc };
+    let r = run_cfg_fault(&input, &cuts, f[2] == "1", init, &script, true, fault);
+    let evs = if r.log.is_empty() { "-".to_string() } else { r.log.join(";") };
+    let outs: Vec<String> = r.outs.iter().map(|o| hex_or_dash(o)).collect();
+    format!("{} # {} # {}", r.results.join(";"), outs.join(";"), evs)
 }
